@@ -26,6 +26,9 @@ type c07Prog struct {
 	PadEnd int `json:"pad_end,omitempty"`
 	// MidEncode: ToBytes is also called after every construction step (an encoding taken early must not pin the result)
 	MidEncode bool `json:"mid_encode,omitempty"`
+	// HWRepr: how the hardware address is spelled: 1 a window of a larger array with foreign octets behind it
+	// (capacity ≥ 16), 2 nil when it is empty, 3 the 6..16 octets in an array of exactly 16
+	HWRepr int `json:"hw_repr,omitempty"`
 }
 
 type c07Case struct {
@@ -34,6 +37,23 @@ type c07Case struct {
 }
 
 func c07Build(c gen.V4Case, pr c07Prog) *dhcpv4.DHCPv4 {
+	p := c07Build0(c, pr)
+	switch n := len(p.ClientHWAddr); {
+	case pr.HWRepr == 1 && n > 0:
+		big := bytes.Repeat([]byte{0xEE}, n+24)
+		copy(big, p.ClientHWAddr)
+		p.ClientHWAddr = big[:n]
+	case pr.HWRepr == 2 && n == 0:
+		p.ClientHWAddr = nil
+	case pr.HWRepr == 3 && n > 0 && n <= 16:
+		big := bytes.Repeat([]byte{0xDD}, 16)
+		copy(big, p.ClientHWAddr)
+		p.ClientHWAddr = big[:n]
+	}
+	return p
+}
+
+func c07Build0(c gen.V4Case, pr c07Prog) *dhcpv4.DHCPv4 {
 	p := c.Lib()
 	p.Options = dhcpv4.Options{}
 	junkAt := map[int]bool{}
@@ -331,7 +351,7 @@ func genC07() *rapid.Generator[c07Case] {
 		np := rapid.IntRange(2, 4).Draw(t, "nprogs")
 		for i := 0; i < np; i++ {
 			pr := c07Prog{Kind: rapid.IntRange(0, 5).Draw(t, "kind"), Order: rapid.Permutation(seq(n)).Draw(t, "order"),
-				PadEnd: rapid.SampledFrom([]int{0, 0, 0, 1, 2, 3}).Draw(t, "padend"), MidEncode: rapid.Bool().Draw(t, "midencode")}
+				PadEnd: rapid.SampledFrom([]int{0, 0, 0, 1, 2, 3}).Draw(t, "padend"), MidEncode: rapid.Bool().Draw(t, "midencode"), HWRepr: rapid.SampledFrom([]int{0, 0, 1, 2, 3}).Draw(t, "hwrepr")}
 			if n > 0 {
 				pr.Junk = rapid.SliceOfN(rapid.IntRange(0, n-1), 0, 3).Draw(t, "junk")
 			}
@@ -373,7 +393,7 @@ func TestC07_Permutations(t *testing.T) {
 			}
 		}
 		for pe := 1; pe <= 3; pe++ {
-			c07.one(t, c07Case{Base: base, Progs: []c07Prog{{Kind: 0, Order: seq(len(set))}, {Kind: 1, Order: seq(len(set)), PadEnd: pe}, {Kind: 5, Order: seq(len(set)), PadEnd: pe, MidEncode: true}}})
+			c07.one(t, c07Case{Base: base, Progs: []c07Prog{{Kind: 0, Order: seq(len(set))}, {Kind: 1, Order: seq(len(set)), PadEnd: pe}, {Kind: 5, Order: seq(len(set)), PadEnd: pe, MidEncode: true, HWRepr: 1 + pe%3}}})
 		}
 	}
 	c07.rec.Class("permutation-enumeration")
